@@ -114,7 +114,7 @@ def check(run, prog, tier):
             # (4) size is the function's own parameter: the caller decides (scratch_realloc)
             if not ok:
                 s = strip(size)
-                if any(x.get("k") == "Ref" and x.get("d") == "param" for x in walk(s)) and not any(x.get("k") == "Mem" for x in walk(s)):
+                if any(x.get("k") == "Ref" and x.get("d") == "param" for x in walk(s)) and not any(x.get("k") == "Mem" and any(y.get("k") == "Ref" and y.get("d") == "param" for y in walk(x)) for x in walk(s)):
                     ok, why = True, "size is a parameter of %s (allocator wrapper)" % f.name
             run.ob("C02-a", inst, ok, "%s — %s" % (show(n)[:60], why), f.file, n.get("l"), f.name, what="%s 'grows' a table without enlarging it: %s" % (f.name, why))
 
